@@ -75,6 +75,13 @@ FAILING = [
     ("runtime", "unit {N} = 1 m\nlet {N}_q = 1 {N} / 0", [], ["{N}", "{N}_q"]),
     ("runtime", "fn {N}(x) = 1 / x\n{N}(0)", [], ["{N}"]),
     ("runtime", "struct {N}T {{ a: Length }}\nlet {N}_v = {N}T {{ a: 1 m / 0 }}", [], ["{N}_v"]),
+    # inputs made of expression statements only: earlier ones succeed (and would become `ans`), a later one fails
+    ("runtime_expr_only", "1 / 0", [], []),
+    ("runtime_expr_only", "12 kg\n1 / 0", [], []),
+    ("runtime_expr_only", '"text"; 1 + error("boom")', [], []),
+    ("runtime_expr_only", "true\nhead([])", [], []),
+    ("runtime_expr_only", "[1 s, 2 s]; 3 m; (2 m)^(1/3 + 1e-17) * (1 m)^pi", [], []),
+    ("runtime_expr_only", "now(); 5 km/h\nelement_at(7, [1, 2])", [], []),
 ]
 
 PREFIX_OK = [
@@ -82,7 +89,7 @@ PREFIX_OK = [
     ("let {P} = 5 km", [], ["{P}"]), ('print("from the failing input")', [], []), ("fn {P}(x) = x + 1", [], ["{P}"]),
     ("unit {P} = 7 m", [], ["{P}"]), ("use vf::ok_a", ["vf::ok_a"], []), ("use vf::ok_c", ["vf::ok_c", "vf::ok_b"], []),
     ("use {M}", ["{M}"], []), ("struct {P}S {{ q: Scalar }}", [], []), ("dimension {P}D = Length * Time", [], []),
-    ("let {P} = [1, 2, 3]", [], ["{P}"]), ("3 m + 4 m", [], []),
+    ("let {P} = [1, 2, 3]", [], ["{P}"]), ("3 m + 4 m", [], []), ("17 s", [], []), ('"a string"', [], []),
 ]
 
 
@@ -107,7 +114,7 @@ def make_failing(rng, k, gen):
 
 
 def probe_battery(gen, modules, defined):
-    out = []
+    out = ["ans", "_", "ans + ans"]     # the last result must be the one from before the failing input
     for m in modules:
         out.append(f"use {m}")
         p = VF_PROBE.get(m) or MODULE_PROBE.get(m)
@@ -155,7 +162,7 @@ def run_twin(sh, w, rng, k):
         if dg.get("stack") != dg.get("nglobals") or dg.get("frames") != 1:
             sh.violation(case, f"after the failing input the VM is not quiescent: stack={dg.get('stack')} "
                                f"globals={dg.get('nglobals')} frames={dg.get('frames')}")
-        suffix = [gen.statement() for _ in range(rng.randint(0, 4))]
+        suffix = [gen.statement() for _ in range(rng.randint(0, 4))] if rng.random() < 0.6 else []
         suffix += probe_battery(gen, modules, defined)
         case["suffix"] = suffix
         diffs = []
@@ -233,7 +240,7 @@ def replay(sh, case):
         sh.violation(case, f"`{s}`: {json.dumps(oa)[:300]} vs {json.dumps(ob)[:300]}")
 
 
-LEVEL_TEXT = ("Fault enumeration by forked twins: for every fault class (11 classes, 37 failing templates, each optionally "
+LEVEL_TEXT = ("Fault enumeration by forked twins: for every fault class (12 classes, 43 failing templates, each optionally "
               "preceded by statements that would succeed) a failing input is injected into a clone of a random session; the "
               "monitor then drives reference and clone with the same suffix and a probe battery and compares every "
               "observation, plus the quiescence invariant (stack depth == globals) through the hook.")
